@@ -16,6 +16,9 @@ struct Slot {
 
 static SLOTS: Mutex<Vec<Arc<Slot>>> = Mutex::new(Vec::new());
 static START: OnceLock<Instant> = OnceLock::new();
+/// `now_ms()` as of the watchdog's last round (every 2 s): a clock cheap enough for codec enumerations that make
+/// billions of calls. 0 until the watchdog runs.
+static COARSE: AtomicU64 = AtomicU64::new(0);
 
 struct Guard(Arc<Slot>);
 impl Drop for Guard {
@@ -49,6 +52,27 @@ pub fn tick() {
     with_slot(|s| s.last.store(now_ms(), Ordering::Relaxed));
 }
 
+/// Cheap variant for call-level guards: marks the calling thread as inside the subject since (about) now and returns
+/// the previous mark, which `leave` puts back.
+pub fn enter_coarse() -> u64 {
+    let mut now = COARSE.load(Ordering::Relaxed);
+    if now == 0 {
+        // before the watchdog's first round: the precise clock (a subject may hang in its very first call)
+        now = now_ms();
+    }
+    let mut prev = 0;
+    with_slot(|s| prev = s.last.swap(now, Ordering::Relaxed));
+    prev
+}
+
+pub fn leave(prev: u64) {
+    MINE.with(|m| {
+        if let Some(g) = m.borrow().as_ref() {
+            g.0.last.store(prev, Ordering::Relaxed);
+        }
+    });
+}
+
 /// The calling thread is not inside an execution (between cases, aggregating).
 pub fn idle() {
     MINE.with(|m| {
@@ -71,6 +95,7 @@ pub fn start(limit: Duration, on_stuck: impl Fn(Option<usize>, u64) + Send + 'st
         .spawn(move || loop {
             std::thread::sleep(Duration::from_secs(2));
             let now = now_ms();
+            COARSE.store(now, Ordering::Relaxed);
             let slots = SLOTS.lock().unwrap().clone();
             for s in slots {
                 let last = s.last.load(Ordering::Relaxed);
